@@ -646,3 +646,37 @@ package netty
 //@   preserves handlerContext.*, pipeline.*, ghost node, ghost pos, channel.ctx, channel.cancel, channel.transport, channel.executor, channel.pipeline, channel.writeQueue, channel.untilWrite, channel.writeBuffers, channel.recycleBuffers, channel.id, channel.closed
 //@   ensures fires_event: count("Pipeline.FireChannelEvent") == 1 && evis(0, "Pipeline.FireChannelEvent") && evrecv(0) == old(c.pipeline) && evarg(0, 0) == event
 //@   ensures exception_at_most_once: count("Pipeline.FireChannelException") <= 1
+
+// ---------------------------------------------------------------------------
+// lifecycle (C05, C07, C13)
+//@ assume functype func()
+//@   may_panic true
+//@   modifies all
+//@   preserves handlerContext.*, pipeline.*, ghost node, ghost pos, channel.ctx, channel.cancel, channel.transport, channel.executor, channel.pipeline, channel.writeQueue, channel.untilWrite, channel.writeBuffers, channel.recycleBuffers, channel.id, channel.closed
+
+//@ func newChannelWith
+//@   requires ctx != nil && writeQueueSize <= 1<<40
+//@   ensures is(result, *channel) && fresh(as(result, *channel)) && as(result, *channel) != nil
+//@   ensures config: as(result, *channel).id == id && as(result, *channel).pipeline == pipeline && as(result, *channel).transport == transport && as(result, *channel).executor == executor && as(result, *channel).untilWrite == untilWrite && as(result, *channel).closed == 0 && as(result, *channel).running == 0 && as(result, *channel).closeErr == nil
+//@   ensures context: as(result, *channel).ctx != nil && as(result, *channel).cancel != nil
+//@   ensures async: implies(writeQueueSize > 0, as(result, *channel).writeQueue != nil && cap(as(result, *channel).writeQueue) == writeQueueSize && bufInv(as(result, *channel)) && len(as(result, *channel).writeBuffers) == 0 && len(as(result, *channel).recycleBuffers) == 0)
+//@   ensures sync: implies(writeQueueSize <= 0, as(result, *channel).writeQueue == nil)
+
+//@ func (*channel).readLoop
+//@   requires chinv(c) && done != nil
+//@   modifies all
+//@   preserves handlerContext.*, pipeline.*, ghost node, ghost pos, channel.ctx, channel.cancel, channel.transport, channel.executor, channel.pipeline, channel.writeQueue, channel.untilWrite, channel.writeBuffers, channel.recycleBuffers, channel.id, channel.closed
+//@   loop 0 modifies all
+//@   loop 0 preserves handlerContext.*, pipeline.*, ghost node, ghost pos, channel.ctx, channel.cancel, channel.transport, channel.executor, channel.pipeline, channel.writeQueue, channel.untilWrite, channel.writeBuffers, channel.recycleBuffers, channel.id, channel.closed
+//@   loop 0 emits
+//@   loop 0 invariant chinv(c)
+//@   loop 0 invariant one_read_per_iteration: implies(nemitted() > 0, evis(0, "select nonblocking") && evis(1, "select default") && evis(2, "Pipeline.FireChannelRead") && evrecv(2) == c.pipeline && evarg(2, 0) == c.transport && count("Pipeline.FireChannelRead") == 1 && count("Pipeline.FireChannelActive") == 0 && count("Pipeline.FireChannelException") <= 1)
+//@   ensures exits_through_close: evis(nemitted()-1, "netty.channel.Close") && evarg(nemitted()-1, 0) == c
+//@   ensures stops_when_cancelled: implies(count("select nonblocking") >= 1, evis(nemitted()-2, "select recv c.ctx.Done()"))
+//@ order (*channel).readLoop: "readLoop$2" dominates "invokeMethod"
+//@ func (*channel).serveChannel
+//@   requires chinv(c)
+//@   may_panic true
+//@   modifies all
+//@   preserves handlerContext.*, pipeline.*, ghost node, ghost pos, channel.ctx, channel.cancel, channel.transport, channel.executor, channel.pipeline, channel.writeQueue, channel.untilWrite, channel.writeBuffers, channel.recycleBuffers, channel.id, channel.closed
+//@   ensures starts_read_loop_and_waits_for_active: nemitted() == 2 && evis(0, "Executor.Exec") && evrecv(0) == old(c.executor) && evis(1, "recv signal")
